@@ -1858,6 +1858,10 @@ func skippedBodyClosesConn(p *Prog, r *Report) {
 						for _, g := range guardsOf(st.Block()) {
 							at[g.Atom] = true
 						}
+						// what the stored value itself depends on ('flag = flag || cond' in one expression)
+						for a := range condAtomsDepth(st.Val, 2) {
+							at[a] = true
+						}
 						walk(st.Val, d+1)
 					}
 					return
@@ -1984,6 +1988,24 @@ func idleConnsExpire(p *Prog, r *Report) {
 							return true
 						}
 					}
+					// 'if !running { running = true; go cleaner() }': the test itself settles it when its
+					// not-running branch raises the flag
+					if iff, ok := i.(*ssa.If); ok {
+						pol, cv := stripNot(iff.Cond)
+						if _, fv := loadedField(cv); fv != nil && fv.Name() == "connsCleanerRun" {
+							notRunning := iff.Block().Succs[1]
+							if !pol {
+								notRunning = iff.Block().Succs[0]
+							}
+							for _, ni := range notRunning.Instrs {
+								if s3, ok := ni.(*ssa.Store); ok {
+									if _, f3 := fieldOfAddr(s3.Addr); f3 != nil && f3.Name() == "connsCleanerRun" {
+										return true
+									}
+								}
+							}
+						}
+					}
 					return false
 				}
 				hit, path := reachAvoiding(fn, st, func(i ssa.Instruction) bool {
@@ -2049,9 +2071,29 @@ func pipelinedBodyLeavesTheReader(p *Prog, r *Report) {
 		}
 		return nil
 	}
-	fromMethod := func(v ssa.Value) bool {
+	isHeadCall := func(v ssa.Value) bool {
 		c, ok := v.(*ssa.Call)
 		return ok && c.Call.StaticCallee() != nil && c.Call.StaticCallee().Name() == "IsHead"
+	}
+	// the stored value is the method test itself, or a constant chosen by a branch on it
+	fromMethodAt := func(st *ssa.Store) bool {
+		if isHeadCall(st.Val) {
+			return true
+		}
+		c, isC := st.Val.(*ssa.Const)
+		if !isC || c.Value == nil {
+			return false
+		}
+		want := c.Value.ExactString() == "true"
+		for _, pr := range st.Block().Preds {
+			if iff, ok := pr.Instrs[len(pr.Instrs)-1].(*ssa.If); ok && len(st.Block().Preds) == 1 {
+				pol, cv := stripNot(iff.Cond)
+				if isHeadCall(cv) && ((pr.Succs[0] == st.Block()) == pol) == want {
+					return true
+				}
+			}
+		}
+		return false
 	}
 	start := ssa.Instruction(nil)
 	if header != nil {
@@ -2060,7 +2102,7 @@ func pipelinedBodyLeavesTheReader(p *Prog, r *Report) {
 	isRead := func(i ssa.Instruction) bool { return i == read }
 	h1, p1 := reachAvoiding(fn, start, isRead, func(i ssa.Instruction) bool {
 		st := storeOf(i, "SkipBody")
-		return st != nil && fromMethod(st.Val)
+		return st != nil && fromMethodAt(st)
 	}, nil)
 	r.Check("R12", "pipeline reader: the response is read with SkipBody decided by the request's method", h1 == nil, p.Pos(read.Pos()),
 		"the read is reachable without a store of IsHead() into resp.SkipBody: with the caller's SkipBody = true on a GET the body stays in the shared reader and is parsed as the response to the next pipelined request", blocksString(p, p1)...)
@@ -2078,15 +2120,15 @@ func pipelinedBodyLeavesTheReader(p *Prog, r *Report) {
 	bad := 0
 	for _, b := range fn.Blocks {
 		for _, in := range b.Instrs {
-			if st := storeOf(in, "SkipBody"); st != nil && !fromMethod(st.Val) {
+			if st := storeOf(in, "SkipBody"); st != nil && !fromMethodAt(st) {
 				if hit, _ := reachAvoiding(fn, in, isRead, func(i ssa.Instruction) bool {
 					s2 := storeOf(i, "SkipBody")
-					return s2 != nil && fromMethod(s2.Val)
+					return s2 != nil && fromMethodAt(s2)
 				}, map[*ssa.BasicBlock]bool{}); hit != nil && header != nil && inLoop(header, b) {
 					// reachable only around the loop through the header, where the method store intervenes, is fine
 					if h3, _ := reachAvoiding(fn, in, isRead, func(i ssa.Instruction) bool {
 						s2 := storeOf(i, "SkipBody")
-						return s2 != nil && fromMethod(s2.Val)
+						return s2 != nil && fromMethodAt(s2)
 					}, nil); h3 != nil {
 						bad++
 					}
